@@ -50,3 +50,24 @@ package http
 //@ func (*Handler).getFastHTTPServiceContext
 //@   havoc
 //@   modifies ghost.dict_has[*], ghost.dict_int[*]
+
+// ---- the HTTP client transport (C12, C13, C10) ---------------------------------------------------
+// one POST per call, whose body is exactly the request and which carries the call's context; the
+// response is the complete body or an error (readAll); 413 comes back as the request-too-large
+// error, any other status as an error; the body is closed on every path.
+//@ func addHeader
+//@   nopanic
+//@   havoc
+
+//@ func (*Transport).Transport
+//@   prop C12 C13 C10
+//@   havoc
+//@   flag typeassert=panic
+//@   requires trans != nil
+//@   modifies ghost.http_do, ghost.rpos[*], ghost.bufsrc[*], ghost.bufpos[*], ghost.bufn[*], ghost.dict_has[*], ghost.dict_int[*]
+//@   atcall NewReader [request_body_is_exactly_the_request] same(arg0, request)
+//@   atcall NewRequestWithContext [the_call_carries_its_context] same(arg0, ctx)
+//@   atcall Do [request_sent_unmodified] same(request, old(request))
+//@   ensures [at_most_one_http_exchange] ghost.http_do <= old(ghost.http_do) + 1
+//@   ensures [success_only_after_an_exchange] result1 == nil ==> ghost.http_do == old(ghost.http_do) + 1
+//@   ensures [complete_body_or_error] result1 == nil && result0 != nil ==> off(result0) == 0 && ghost.bufn[arr(result0)] == len(result0)
